@@ -26,7 +26,7 @@ func (t *FnTrans) run() (err error) {
 	if len(fn.Blocks) == 0 {
 		t.fail("function %s has no body", fn)
 	}
-	t.entry = &State{H: map[string]string{}}
+	t.entry = &State{H: map[string]string{}, Held: map[string]int{}}
 	t.cur = t.entry.clone()
 	t.guard = "true"
 	t.comp("$alloc", "Int")
@@ -197,7 +197,22 @@ func (t *FnTrans) mergeStates(preds []*ssa.BasicBlock, conds []string, b *ssa.Ba
 	if len(preds) == 1 {
 		return t.blkOut[preds[0]].clone()
 	}
-	out := &State{H: map[string]string{}}
+	out := &State{H: map[string]string{}, Held: map[string]int{}}
+	for _, p := range preds {
+		for k := range t.blkOut[p].Held {
+			out.Held[k] = t.blkOut[p].Held[k]
+		}
+	}
+	for k := range out.Held {
+		for _, p := range preds {
+			if v, ok := t.blkOut[p].Held[k]; !ok || v != out.Held[k] {
+				if !ok && out.Held[k] == 0 {
+					continue
+				}
+				out.Held[k] = -1
+			}
+		}
+	}
 	comps := map[string]bool{}
 	for _, p := range preds {
 		for c := range t.blkOut[p].H {
@@ -240,6 +255,9 @@ func (t *FnTrans) entryVersion(c string) string {
 	if !t.declared[n] {
 		t.declare(n, t.compSort[c])
 		t.typedFresh(c, n)
+		if strings.HasPrefix(c, "TD.") {
+			t.emit(fmt.Sprintf("(assert (forall ((td$r Int)) (! (>= (select %s td$r) 0) :pattern ((select %s td$r)))))", n, n))
+		}
 	}
 	t.entry.H[c] = n
 	return n
@@ -1379,6 +1397,11 @@ func (t *FnTrans) typeAssert(x *ssa.TypeAssert) {
 }
 
 func (t *FnTrans) panicInstr(x *ssa.Panic) {
+	if t.ct != nil && t.ct.PanicsWhen != nil {
+		env := t.selfEnv(t.cur, t.entry)
+		t.oblige("panic", env.evalBool(t.ct.PanicsWhen.E), "panic only in a state satisfying the declared condition: "+t.ct.PanicsWhen.Text)
+		return
+	}
 	if t.ct != nil && t.ct.PanicsIf != nil {
 		env := t.selfEnv(t.entry, t.entry)
 		t.oblige("panic", env.evalBool(t.ct.PanicsIf.E), "panic only under the declared condition")
@@ -1405,6 +1428,7 @@ func (t *FnTrans) ret(x *ssa.Return) {
 		e0 := t.selfEnv(t.entry, t.entry)
 		t.oblige("nopanic", not(e0.evalBool(t.ct.PanicsIf.E)), "returns normally only when the panic condition is false")
 	}
+	t.debtsExit()
 	for i, c := range t.ct.Ensures {
 		goal := env.evalBool(c.E)
 		name := fmt.Sprintf("post.%d", i+1) + t.retSuffix()
